@@ -1,6 +1,7 @@
 """Registry: for each property, which correspondences, oracles and budgets make up its check."""
 from . import i3_card, i1_logic, i5_comb, i4_text
 from . import oracles_design as OD
+from . import i11_api
 
 TB_COMMON = [
     "Lean 4.33.0 kernel (thorough tier: re-checked with leanchecker)",
@@ -43,6 +44,14 @@ def _design_prop(oracle, quick=60, thorough=600, extra_assumptions=()):
 
 
 REGISTRY = {
+    "C20": dict(_design_prop(i11_api.oracle_c20, quick=30, thorough=300), correspondence=[i11_api.corr_api]),
+    "C21": {
+        "correspondence": [i11_api.corr_api],
+        "oracle": [i11_api.oracle_c21],
+        "oracle_budget": {"quick": 20, "thorough": 200},
+        "trusted_base": TB_COMMON + ["the printed table is parsed by splitting on ' | ' (level names without that separator)", "float formatting of percentages is compared numerically (1e-9), never as text"],
+        "assumptions": ["level names are strings"],
+    },
     "C01": _design_prop(OD.oracle_c01),
     "C02": _design_prop(OD.oracle_c02),
     "C03": _design_prop(OD.oracle_c03),
